@@ -139,9 +139,10 @@ fn run_prog(sc: &mut Box<dyn Scorer>, prog: &[Value], scoring: bool, avoid: Avoi
                         }
                         t = cur.last_danger + 1;
                     }
-                    // recorded finding: a union member left in the danger zone after a miss is later taken as a match:
-                    // for such scorers only issue seek_danger calls that hit (S is used to choose inputs, never to judge)
-                    if avoid.union_member && seq.binary_search(&t).is_err() {
+                    // recorded finding: a union member that misses stays in the danger zone and is taken as a match when
+                    // the same or a later seek_danger succeeds through another member: no seek_danger on such scorers
+                    if avoid.union_member {
+                        let _ = seq;
                         return None;
                     }
                     // recorded finding: BufferedUnionScorer::seek_danger with a target before its buffered window;
